@@ -271,4 +271,48 @@ def matPseudoDensity (refDens dLL : Rat) : Rat := refDens / (1 + dLL / 100) ^ 2
 /-- `checkTempRange`: the value is inside the stated range -/
 def tempInRange (minT maxT v : Rat) : Bool := decide (minT ≤ v) && decide (v ≤ maxT)
 
+
+/-! ### material library: piecewise-polynomial correlations regenerated from the source (Gen/MaterialTable.lean) -/
+
+/-- Horner evaluation: `cs = [c0, c1, …]` is c0 + c1·x + c2·x² + … -/
+def polyEval (cs : List Rat) (x : Rat) : Rat := cs.foldr (fun c acc => c + x * acc) 0
+
+def rmin (a b : Rat) : Rat := if a ≤ b then a else b
+def rmax (a b : Rat) : Rat := if a ≤ b then b else a
+
+/-- interval product [a,b]·[l,h] -/
+def imul (a b l h : Rat) : Rat × Rat :=
+  (rmin (rmin (a * l) (a * h)) (rmin (b * l) (b * h)), rmax (rmax (a * l) (a * h)) (rmax (b * l) (b * h)))
+
+/-- interval Horner: an enclosure of `polyEval cs x` for all x in [a, b] -/
+def polyRange (cs : List Rat) (a b : Rat) : Rat × Rat :=
+  cs.foldr (fun c acc => let m := imul a b acc.1 acc.2; (c + m.1, c + m.2)) (0, 0)
+
+/-- k consecutive sub-intervals of width w starting at a: on each the enclosure lies strictly inside (lb, ub) -/
+def checkSub (cs : List Rat) (lb ub : Rat) (a w : Rat) : Nat → Bool
+  | 0 => true
+  | k + 1 =>
+    let r := polyRange cs a (a + w)
+    decide (lb < r.1) && decide (r.2 < ub) && checkSub cs lb ub (a + w) w k
+
+/-- one polynomial piece of a material correlation, with the bounds claimed for it on [lo, hi] -/
+structure Piece where
+  material : String
+  fn : String
+  lo : Rat
+  hi : Rat
+  cs : List Rat
+  lb : Rat
+  ub : Rat
+  /-- number of sub-intervals used by the check -/
+  n : Nat
+  /-- reference density when the piece is an expansion feeding the base-class density formulas, else 0 -/
+  refDens : Rat
+
+def checkPiece (p : Piece) : Bool :=
+  decide (0 < p.n) && decide (p.lo ≤ p.hi) && checkSub p.cs p.lb p.ub p.lo ((p.hi - p.lo) / p.n) p.n
+
+/-- an expansion piece that feeds `Material.density` / `pseudoDensity`: expansion above −100 %, reference density positive -/
+def checkDensityPiece (p : Piece) : Bool := checkPiece p && decide (-100 ≤ p.lb) && decide (0 < p.refDens)
+
 end ArmiVerif.Nuclide
